@@ -3,12 +3,14 @@
 
 #include <asmjit/core.h>
 #include <asmjit/x86.h>
+#include <asmjit/a64.h>
 #include <asmjit/core/constpool.h>
 
 #include <string.h>
 #include <map>
 #include <string>
 #include <vector>
+#include <memory>
 
 using namespace asmjit;
 using sim::Op;
@@ -169,23 +171,33 @@ void execute_direct(const Plan& plan) {
   SIM_CHECK(sim::heap::live_blocks_this_run() == 0, "c19:leak", "%zu heap block(s) leaked:%s", sim::heap::live_blocks_this_run(), sim::heap::describe_live_blocks_this_run().c_str());
 }
 
-// Constants embedded through an Assembler: the section bytes after the (aligned) label equal the model image.
+// Constants embedded through an Assembler or a Builder (x86-32, x86-64, AArch64): the section bytes after the (aligned)
+// label equal the model image.
 void execute_embed(const Plan& plan) {
   sim::set_knob_arena_block(size_t(plan.get("arena_block", 0)));
   sim::set_knob_code_buffer(size_t(plan.get("code_buffer", 0)));
   sim::heap::configure(int(plan.get("junk", 0)), int(plan.get("realloc_move", 0)), int(plan.get("shift", 0)), plan.seed);
   sim::heap::arm(true);
   {
-    Environment env(plan.get("arch64", 1) ? Arch::kX64 : Arch::kX86);
+    int arch = int(plan.get("arch", 1));            // 0 x86-32, 1 x86-64, 2 AArch64
+    bool via_builder = plan.get("builder", 0) != 0;
+    Environment env(arch == 0 ? Arch::kX86 : arch == 1 ? Arch::kX64 : Arch::kAArch64);
     CodeHolder code;
     SIM_CHECK(code.init(env) == Error::kOk, "c19:setup", "CodeHolder::init failed");
-    x86::Assembler a(&code);
+    std::unique_ptr<BaseEmitter> emitter;
+    if (arch == 2) emitter.reset(via_builder ? static_cast<BaseEmitter*>(new a64::Builder()) : static_cast<BaseEmitter*>(new a64::Assembler()));
+    else emitter.reset(via_builder ? static_cast<BaseEmitter*>(new x86::Builder()) : static_cast<BaseEmitter*>(new x86::Assembler()));
+    BaseEmitter& a = *emitter;
+    bool usable = code.attach(&a) == Error::kOk;
+    SIM_CHECK(usable || sim::run_faults_fired_total() > 0, "c19:setup", "attach failed");
     Arena arena(size_t(plan.get("min_block", 4096)));
     ConstPool pool(arena);
     Model m;
     std::vector<std::string> history;
-    // some code before the pool so that alignment padding is needed
-    for (int64_t i = 0; i < plan.get("prefix_nops", 0); i++) a.nop();
+    // some bytes before the pool so that alignment padding is needed (any count: data may end anywhere)
+    size_t prefix = size_t(plan.get("prefix_nops", 0));
+    uint8_t filler[80]; memset(filler, 0x90, sizeof filler);
+    if (usable && prefix) usable = a.embed(filler, prefix) == Error::kOk;
     run_ops(plan, m, history, [&](const std::string& d, size_t& off, size_t& psize, size_t& palign) {
       Error e = pool.add(d.data(), d.size(), Out(off));
       psize = pool.size(); palign = pool.alignment();
@@ -193,22 +205,23 @@ void execute_embed(const Plan& plan) {
     }, &pool);
     sim::begin_op(Op(), plan.ops.size());
     Label l = a.new_label();
-    size_t before = a.offset();
-    Error e = a.embed_const_pool(l, pool);
+    size_t before = prefix;
+    Error e = usable ? a.embed_const_pool(l, pool) : Error::kOutOfMemory;
+    if (e == Error::kOk && via_builder) e = a.finalize();
     if (e != Error::kOk) {
-      SIM_CHECK(sim::run_faults_fired_total() > 0, "c19:embed-failed", "embed_const_pool failed with %u without a fault", unsigned(e));
+      SIM_CHECK(sim::run_faults_fired_total() > 0, "c19:embed-failed", "embed_const_pool%s failed with %u without a fault", via_builder ? " + finalize" : "", unsigned(e));
     }
     else {
       SIM_CHECK(code.is_label_bound(l), "c19:embed-label", "embed_const_pool did not bind the label");
       size_t lo = size_t(code.label_offset(l));
       size_t align = pool.alignment() ? pool.alignment() : 1;
-      SIM_CHECK(lo % align == 0, "c19:embed-alignment", "pool label at offset %zu is not aligned to %zu", lo, align);
+      SIM_CHECK(lo % align == 0, "c19:embed-alignment", "pool label at offset %zu is not aligned to %zu (arch %d, %s, %zu bytes in front)", lo, align, arch, via_builder ? "builder" : "assembler", prefix);
       SIM_CHECK(lo >= before && lo - before < align, "c19:embed-alignment", "alignment padding of %zu bytes for alignment %zu", lo - before, align);
       Section* text = code.text_section();
       SIM_CHECK(text->buffer_size() == lo + pool.size(), "c19:embed-size", "section size %zu after embedding, expected %zu", text->buffer_size(), lo + pool.size());
       check_image(m, text->data() + lo, pool.size(), "embed_const_pool()");
       if (!m.entries.empty()) sim::mark_nontrivial();
-      sim::logf("embedded at %zu size %zu", lo, pool.size());
+      sim::logf("embedded at %zu size %zu arch=%d builder=%d", lo, pool.size(), arch, int(via_builder));
     }
     sim::end_op();
   }
@@ -296,7 +309,8 @@ Plan generate_common(uint64_t seed, bool thorough, bool allow_reset) {
   p.set("shift", int64_t(cfg.below(4)));
   p.set("realloc_move", int64_t(cfg.below(2)));
   p.set("code_buffer", cfg.chance(1, 2) ? int64_t(32 << cfg.below(4)) : 0);
-  p.set("arch64", int64_t(cfg.below(2)));
+  p.set("arch", int64_t(cfg.below(3)));
+  p.set("builder", int64_t(cfg.chance(1, 3)));
   p.set("prefix_nops", int64_t(cfg.below(70)));
   int fault_class = int(cfg.below(3));
   p.set("fault_class", fault_class);
